@@ -14,11 +14,14 @@ import (
 	"os"
 	"path/filepath"
 	"sort"
+	"sync"
+	"testing/synctest"
 	"time"
 
 	cfg "github.com/lianxiangcloud/linkchain/config"
 	"github.com/lianxiangcloud/linkchain/libs/common"
 	"github.com/lianxiangcloud/linkchain/libs/crypto"
+	"github.com/lianxiangcloud/linkchain/libs/log"
 	"github.com/lianxiangcloud/linkchain/libs/ser"
 	"github.com/lianxiangcloud/linkchain/types"
 
@@ -212,6 +215,12 @@ type World struct {
 	incarn    int
 
 	Park *ParkApp // scheduler seam installed on Chain.Mempool
+
+	// NoWait: the committing goroutine is parked inside CommitBlock; client
+	// steps are settled by yielding (see settle), at most SpinBound times.
+	NoWait    bool
+	SpinBound int
+	cpark     commitPark
 
 	// ApplyHook, when set, books a committed transaction from its receipt and
 	// returns true; otherwise the world's own rules apply.
@@ -654,4 +663,117 @@ func (w *World) UserByAddr(a common.Address) *User {
 // SortHashes sorts hashes bytewise (for order-insensitive fingerprints).
 func SortHashes(h []common.Hash) {
 	sort.Slice(h, func(i, j int) bool { return string(h[i][:]) < string(h[j][:]) })
+}
+
+// ---------------------------------------------------------------- park points inside CommitBlock
+
+// The application's logger is injectable; CommitBlock logs at known places.
+// A logger that parks the calling goroutine at an armed message gives the
+// simulator a park point INSIDE CommitBlock without touching production code.
+
+// Log lines of app.CommitBlock usable as park points.
+const (
+	ParkCommitStart   = "CommitBlock: start" // nothing written yet, no lock held
+	ParkBeforeSave    = "candidates list"    // state committed, block not stored yet, no lock held
+	ParkStateReplaced = "GetCoefficient "    // checkTxState replaced and key-image cache reset, Mempool.Update not yet called
+)
+
+type commitPark struct {
+	mu      sync.Mutex
+	armed   bool
+	at      string
+	parked  bool
+	release chan struct{}
+}
+
+type parkLogger struct {
+	log.Logger
+	w *World
+}
+
+func (l *parkLogger) With(...interface{}) log.Logger { return l }
+
+func (l *parkLogger) Info(msg string, ctx ...interface{}) {
+	cp := &l.w.cpark
+	cp.mu.Lock()
+	hit := cp.armed && msg == cp.at
+	if hit {
+		cp.armed = false
+		cp.parked = true
+	}
+	ch := cp.release
+	cp.mu.Unlock()
+	if hit {
+		<-ch // no harness lock held
+	}
+}
+
+// CommitRace is Commit with the node's CommitBlock/ApplyBlock running on its
+// own goroutine, parked at log line at; during runs on the driver while the
+// committer is parked (World.NoWait is set: client steps do not wait for
+// quiescence); then the committer is released and everything settles.
+func (w *World) CommitRace(block *types.Block, at string, during func()) (res CommitResult, parked bool) {
+	wb, parts, err := w.Wire(block)
+	if err != nil {
+		res.Err = fmt.Errorf("wire: %v", err)
+		return
+	}
+	rb, rparts, err := w.Wire(block)
+	if err != nil {
+		res.Err = fmt.Errorf("wire: %v", err)
+		return
+	}
+	w.Rep.RegisterRate()
+	res.RepCheck = w.Rep.App.CheckBlock(rb)
+	w.Chain.RegisterRate()
+	res.NodeCheck = w.Chain.App.CheckBlock(wb)
+	if !res.RepCheck || !res.NodeCheck {
+		return
+	}
+	id := types.BlockID{Hash: wb.Hash(), PartsHeader: parts.Header()}
+	seen := w.signCommit(w.Chain.Status.Validators, id, wb.Height)
+
+	cp := &w.cpark
+	cp.mu.Lock()
+	cp.armed, cp.at, cp.parked, cp.release = true, at, false, make(chan struct{})
+	cp.mu.Unlock()
+	done := make(chan error, 1)
+	ch := w.Chain
+	go func() {
+		var err error
+		if site, msg, p := kernel.Try(func() { err = w.commitOn(ch, wb, parts, seen) }); p {
+			err = fmt.Errorf("panic at %s: %s", site, msg)
+		}
+		done <- err
+	}()
+	synctest.Wait()
+	cp.mu.Lock()
+	parked = cp.parked
+	cp.armed = false
+	cp.mu.Unlock()
+	if parked {
+		w.NoWait = true
+		if w.SpinBound == 0 {
+			w.SpinBound = 3000
+		}
+		during()
+		cp.release <- struct{}{}
+	}
+	err = <-done
+	synctest.Wait()
+	w.NoWait = false
+	if err != nil {
+		res.Err = fmt.Errorf("node: %v", err)
+		return
+	}
+	w.Rep.RegisterRate()
+	if err := w.commitOn(w.Rep, rb, rparts, seen); err != nil {
+		res.Err = fmt.Errorf("replica: %v", err)
+		return
+	}
+	w.Chain.RegisterRate()
+	w.lastSeen = seen
+	w.Seen = append(w.Seen, seen)
+	w.noteCommitted(wb)
+	return
 }
